@@ -37,7 +37,12 @@ RULE = ('waveform recipes (nesting <= 4) over all classes (table hold/linear/jum
         'channels x every proper request set); constructor paths found unreached by the line-coverage audit (constant-expression '
         'FunctionWaveform, from_expression, one-part sequences / multi-channel waveforms, SubsetWaveform over constants below '
         'every optimising constructor); Python-side API probes on every sample case (is_constant vs constant_value_dict vs '
-        'constant_value, unary plus, output arrays of the wrong length / empty time arrays).  Decimal stream (kind dec): durations k/10, k/3, k/5, k/6, k/7, k/100 '
+        'constant_value, unary plus, output arrays of the wrong length / empty time arrays).  Round 5 families: the same rational times handed over as '
+        'int64 / int32 / int8 / uint8 / uint16 / float32 / float16 arrays for 15 recipe kinds (12 report a constant that is neither '
+        'an integer nor a single precision number), with and without a supplied float64 result array; equality pairs that differ '
+        'in exactly one slot for every class.  A rejected case is filed under a known finding only if Coq confirms that the '
+        'implementation equals the model of the unchanged code on it and the specification accepts everything outside the '
+        'points the finding is about (Corr.v excused).  Decimal stream (kind dec): durations k/10, k/3, k/5, k/6, k/7, k/100 '
         '(exact TimeType), repetitions 3..10, grid on every junction as correctly rounded doubles, tolerance 2^-30.  '
         'Non-trivial = the recipe has a composite node (not a bare leaf); distinct = canonical JSON.')
 TRUSTED = [
@@ -56,34 +61,32 @@ ASSUMPTIONS = [
     'repetition counts are small positive integers in generated cases (the theorems are for all counts)',
 ]
 MANIFEST = {
-    'level_text': 'Proof: 88 unbounded theorems over an executable Coq model of waveforms.py: vectorised sampler = pointwise '
-                  'meaning on every sorted grid (all 11 classes); constant_value sound on [0,duration) for all classes; '
-                  '__eq__ => same behaviour; reversed()/double reversal laws; totality REFUTED on the unchanged code '
-                  '(sequence/repetition at t=duration, reversal around them, chained parallel+linear KeyError) and proved under '
-                  'executable guards; every optimising constructor proved to sample like the plain composite and to return a '
-                  'well-formed waveform (from_mapping, from_repetition_count, from_functor, from_to_reverse, from_sequence incl. '
-                  'flattening, from_operator, from_parallel, from_transformation for ALL transformations, from_table incl. '
-                  'de-duplication); the COMPOSED statement over construction recipes (optimising or plain constructor at every '
-                  'node) proved for EVERY recipe: transformations of any kind, reversal (ReversedWaveform, from_to_reverse, '
-                  'reversed()) and get_subset_for_channels anywhere and nested, under executable guards (constructor shape and '
-                  'duplicate-free keys of every transformation, no KeyError in the plain composite, and a time guard that excludes '
-                  'exactly local time 0 of a reversal = the class refuted without it); history '
-                  'independence (no transforming nodes: any history; any transformations: arrays not mutated, no linear output '
-                  'shadowing a forwarded channel - refuted without that guard); code meaning = DESIGN 4.4 denotation for reversal '
-                  'ANYWHERE together with transformations of ANY kind (mirror law incl. time dependent transformations below a '
-                  'reversal) away from the junctions an executable parity guard excludes; round 4: exclusive-channel laws of '
-                  'ArithmeticWaveform and when get_subset of lhs op rhs may be answered by one operand alone (lhs: always; rhs: '
-                  'for + only, refuted for -). Only tested (not modelled): is_constant(), from_expression (translated by the '
-                  'printer), output-array length checks, the content '
-                  'of a supplied output array before the call, float rounding. '
-                  'The model (incl. a state machine for the TransformingWaveform cache) is tied to /repo by an exact '
-                  'correspondence check, an independent denotation (DESIGN 4.4) on generated waveform trees incl. families for '
-                  'sparse grids, shared objects, re-allocated time arrays, reused output arrays and coinciding channel names, '
-                  'and a decimal-duration stream compared under tolerance 2^-30.',
+    'level_text': 'Proof: 89 unbounded theorems over an executable Coq model of waveforms.py (clause map in notes/C08.md). Proved in '
+                  'full: vectorised sampler = pointwise meaning on every sorted grid, independent of the other times (all 11 '
+                  'classes); __eq__ of the model => identical behaviour; reversed() / double reversal laws on the pointwise reading. '
+                  'Proved under executable guards: constant_value sound on [0,duration) for all classes and on [0,duration] '
+                  'without sequence/repetition nodes (refuted at t=duration for sequence/repetition); totality (REFUTED on the unchanged '
+                  'code: sequence/repetition at t=duration, reversal around them, chained parallel+linear KeyError; the guard '
+                  'excludes reversal around sequence/repetition altogether); every optimising constructor samples like the plain '
+                  'composite and returns a well-formed waveform, single steps and the COMPOSED statement for EVERY construction '
+                  'recipe on [0,duration) (guards: constructor shape of transformations, no KeyError in the plain composite, time '
+                  'guard = local time 0 of a reversal); get_subset_for_channels for all classes (same time guard); history '
+                  'independence (no transforming nodes: any history; with transformations: arrays not mutated, no shadowing linear '
+                  'output, and - since round 5 - no call of the history raises KeyError); code meaning = DESIGN 4.4 denotation for '
+                  'reversal anywhere with transformations of any kind away from the junctions an executable guard excludes; '
+                  'exclusive-channel laws of ArithmeticWaveform. Only tested (not in the model): independence of a supplied result '
+                  'array (content, length check), the representation (dtype, strides) of the time array, is_constant(), '
+                  'from_expression, Python hash values, float rounding. '
+                  'The model (incl. a state machine for the TransformingWaveform cache, with the state a failing call leaves '
+                  'behind) is tied to /repo by an exact correspondence check and an independent denotation on generated waveform '
+                  'trees (families: sparse grids, shared objects, re-allocated time arrays, reused output arrays, coinciding channel '
+                  'names, exclusive-channel subsets, integer / single precision time arrays, one-slot equality pairs) and a '
+                  'decimal-duration stream under tolerance 2^-30.',
     'level_note': 'Trusted: Coq kernel, numpy/sympy semantics as modelled, harness (py_build, printers), Python hash. Float '
-                  'rounding not modelled (dyadic inputs exact; decimal stream under a declared tolerance, counted apart; nothing '
-                  'is excused there since its finding was repaired). '
-                  '7 known findings (5 more were repaired in /repo: 01efa2c, 33916af, 55554c3, 4b5e473, e2c868b).',
+                  'rounding not modelled (dyadic inputs exact; decimal stream under a declared tolerance, nothing excused there). '
+                  '7 known findings; a rejected case counts as one of them only if Coq confirms implementation = model of the '
+                  'unchanged code and the specification holds outside the finding (round 5). 5 defects were repaired in /repo '
+                  '(01efa2c, 33916af, 55554c3, 4b5e473, e2c868b).',
     'technique': 'Coq proof over a hand-written model + correspondence check + denotational oracle',
     'design_ref': 'DESIGN.md §5 C08, §4.3, §4.4, Appendix C, D4',
 }
@@ -222,8 +225,14 @@ def _guard(fn):
     try:
         with warnings.catch_warnings():
             warnings.simplefilter('ignore')
-            with vlib.time_limit(10):
-                return ('ok', fn())
+            try:
+                with vlib.time_limit(10):
+                    return ('ok', fn())
+            except vlib.Timeout:
+                # round 5: at machine load > 150 a trivial call (first sympy lambdify, a page fault storm) was seen to take
+                # > 10 s twice in 54 000 thorough cases; a real hang is still a hang after the second, longer limit
+                with vlib.time_limit(90):
+                    return ('ok', fn())
     except vlib.Timeout:
         return ('hang',)
     except tuple(ERRK) as e:
